@@ -4,7 +4,7 @@
    schedule.  The exclusivity of the lock is the model's assumption; the scheduled rig observes
    it on the real backends (and decides linearizability of the add-version handler, whose first
    request for a new client spans three transactions). *)
-From TSS Require Import Conc Sqlite proofs.Atomic proofs.ConcLib.
+From TSS Require Import Conc Sqlite AStore Http proofs.Atomic proofs.ConcLib proofs.UrgencyArith proofs.Agree proofs.Chain proofs.HttpReach proofs.ConcHttp.
 From Coq Require Import Arith.
 Local Open Scope nat_scope.
 
@@ -76,3 +76,40 @@ Theorem C03_window_witness :
   (* add-snapshot first: it is answered 404 *)
   seq2 (w_as, w_E1) (w_av, w_E0) = (404%N, 200%N, 404%N).
 Proof. vm_compute. repeat split. Qed.
+
+(* (4) what overlapping requests can NOT do, add-version included (whose first request for a new
+   client spans three transactions): for ANY number of HTTP requests over any clients, ANY
+   fine-grained schedule (one step per storage call) and either backend, whenever no transaction
+   is open the store represents an abstract store that was never used against its contract and
+   in which every client's versions are one chain from its base with pairwise distinct ids and
+   `latest` the last of them (no fork, no orphan, no lost update of `latest`), and every request
+   answered so far got a non-5xx status.  fresh_distinct: the ids Uuid::new_v4 hands to the
+   requests are non-nil, pairwise distinct and named by no request. *)
+Theorem C03_overlapping_requests_keep_chains : forall k cfg allow reqs sch,
+  cfg_ok cfg -> fresh_distinct [] reqs ->
+  let f := frun (bk_backend k) hresp (init_sys (bk_backend k) hresp (bk_empty k) (handlers cfg allow reqs)) sch in
+  owner f = None ->
+  (exists a, bk_rel k a (db f) /\ chains_ok a) /\ answers_ok (th f).
+Proof. exact conc_http_safe. Qed.
+
+(* the reading of chains_ok / answers_ok is pinned here *)
+Example C03_chains_ok_reading : forall a,
+  chains_ok a <->
+  (a_ok a = true /\
+   forall c x, a_cl a c = Some x ->
+     chain_from (base_of (a_vers x)) (a_vers x) /\ NoDup (base_of (a_vers x) :: ids_of (a_vers x)) /\
+     a_latest x = last_id (a_vers x) nil_id).
+Proof. intros a. reflexivity. Qed.
+Example C03_answers_ok_reading : forall B (l : list (tstate B hresp)),
+  answers_ok l <-> (forall i r, nth_error l i = Some (TDone r) ->
+    let st := rs_status r in st = 200 \/ st = 400 \/ st = 403 \/ st = 404 \/ st = 409 \/ st = 410)%N.
+Proof. intros B l. reflexivity. Qed.
+
+(* non-vacuity: two add-versions racing for a NEW client plus a get-child-version; the first
+   add-version spans three transactions and loses the race (409) *)
+Example C03_overlap_nonvacuous :
+  cfg_ok default_config /\ fresh_distinct [] ex_reqs /\
+  map (fun t => option_map rs_status (result_of SqliteB hresp t))
+      (th (crun SqliteB hresp (init_sys SqliteB hresp sq_empty (handlers default_config None ex_reqs)) [0; 1; 1; 1; 1; 0; 0; 0; 2; 2]))
+  = [Some 409; Some 200; Some 200]%N.
+Proof. exact conc_http_nonvacuous. Qed.
